@@ -32,36 +32,54 @@ pub fn run_check(ctx: &Ctx) -> Outcome {
         "the verification hooks (feature verif-hooks) report the internal lists faithfully".into(),
     ];
     match ctx.id.as_str() {
-        "C01" => check_e1(ctx, Prop::C01, &mut out, 1500, 40000),
-        "C02" => check_e1(ctx, Prop::C02, &mut out, 1200, 30000),
-        "C03" => check_e1(ctx, Prop::C03, &mut out, 1500, 40000),
-        "C04" => check_e1(ctx, Prop::C04, &mut out, 1500, 40000),
+        "C01" => {
+            check_e1(ctx, Prop::C01, &mut out, 12000, 250000);
+            check_e2(ctx, Prop::C01, &[Kind::Lru, Kind::Seg, Kind::TwoQ, Kind::Arc, Kind::Wtl], &mut out);
+        }
+        "C02" => check_e1(ctx, Prop::C02, &mut out, 10000, 200000),
+        "C03" => check_e1(ctx, Prop::C03, &mut out, 12000, 250000),
+        "C04" => check_e1(ctx, Prop::C04, &mut out, 12000, 250000),
         "C05" => {
             check_c05(ctx, &mut out);
             run_nostd_child(ctx, &mut out);
         }
-        "C06" => check_e1(ctx, Prop::C06, &mut out, 1500, 40000),
-        "C07" => check_e1(ctx, Prop::C07, &mut out, 1500, 40000),
-        "C08" => check_e1(ctx, Prop::C08, &mut out, 1500, 40000),
-        "C09" => check_e1(ctx, Prop::C09, &mut out, 1500, 40000),
-        "C10" => check_e1(ctx, Prop::C10, &mut out, 1500, 40000),
-        "C12" => check_e1(ctx, Prop::C12, &mut out, 1500, 40000),
-        "C14" => check_e1(ctx, Prop::C14, &mut out, 1000, 20000),
-        "C15" => check_e1(ctx, Prop::C15, &mut out, 1500, 40000),
+        "C06" => {
+            check_e1(ctx, Prop::C06, &mut out, 12000, 250000);
+            check_e2(ctx, Prop::C06, &[Kind::Lru], &mut out);
+        }
+        "C07" => {
+            check_e1(ctx, Prop::C07, &mut out, 12000, 250000);
+            check_e2(ctx, Prop::C07, &[Kind::Seg], &mut out);
+        }
+        "C08" => {
+            check_e1(ctx, Prop::C08, &mut out, 12000, 250000);
+            check_e2(ctx, Prop::C08, &[Kind::TwoQ], &mut out);
+        }
+        "C09" => {
+            check_e1(ctx, Prop::C09, &mut out, 12000, 250000);
+            check_e2(ctx, Prop::C09, &[Kind::Arc], &mut out);
+        }
+        "C10" => {
+            check_e1(ctx, Prop::C10, &mut out, 12000, 250000);
+            check_e2(ctx, Prop::C10, &[Kind::Wtl], &mut out);
+        }
+        "C12" => check_e1(ctx, Prop::C12, &mut out, 12000, 250000),
+        "C14" => check_e1(ctx, Prop::C14, &mut out, 6000, 100000),
+        "C15" => check_e1(ctx, Prop::C15, &mut out, 12000, 250000),
         "C11" => {
             run_nostd_child(ctx, &mut out);
             check_tinylfu_c11(ctx, &mut out)
         }
         "C11x" => check_tinylfu(ctx, crate::e7::E7Prop::C11, &mut out, 1500, 40000, "generated TinyLFU configurations (size, samples, false-positive ratio, key hasher) x operation sequences over increment / increment_hashed_key / increment_keys / increment_hashed_keys / try_reset / clear / estimate* / contains* / lt..eq with raw hashes from a small alphabet plus 0, u64::MAX, 1<<32, 1<<63 and random values; 30% of the cases use a single key (exact equality with the aged-count model); non-trivial = at least one reset happened and at least one counter > 1 was halved; distinct by FNV-64 of the serialised case"),
-        "C20" => check_sampled(ctx, crate::e7::E7Prop::C20, &mut out, 3000, 60000, "generated SampledLFU sequences (increment*, update*, remove*, clear, update_max_cost, fill_sample, room_left) over hashed keys from a small alphabet plus extremes and signed costs (mostly small, tail to +-2^40); non-trivial = an increment on an already tracked key was followed by remove or room_left; distinct by FNV-64 of the serialised case"),
+        "C20" => check_sampled(ctx, crate::e7::E7Prop::C20, &mut out, 20000, 400000, "generated SampledLFU sequences (increment*, update*, remove*, clear, update_max_cost, fill_sample, room_left) over hashed keys from a small alphabet plus extremes and signed costs (mostly small, tail to +-2^40); non-trivial = an increment on an already tracked key was followed by remove or room_left; distinct by FNV-64 of the serialised case"),
         "C19" => check_c19(ctx, &mut out),
-        "C18" => check_c18(ctx, &mut out, 300, 6000),
-        "C13" => check_c13(ctx, &mut out, 1000, 25000),
+        "C18" => check_c18(ctx, &mut out, 2000, 40000),
+        "C13" => check_c13(ctx, &mut out, 8000, 150000),
         "C16" => {
-            check_c16(ctx, &mut out, 1000, 25000);
-            check_tinylfu(ctx, crate::e7::E7Prop::C16, &mut out, 500, 10000, "");
+            check_c16(ctx, &mut out, 8000, 150000);
+            check_tinylfu(ctx, crate::e7::E7Prop::C16, &mut out, 4000, 60000, "");
         }
-        "C17" => check_c17(ctx, &mut out, 600, 15000),
+        "C17" => check_c17(ctx, &mut out, 5000, 100000),
         other => out.inconclusive = Some(format!("no check registered for {other}")),
     }
     out
@@ -146,7 +164,7 @@ pub fn write_evidence(ctx: &Ctx, out: &Outcome, wall_s: f64) -> String {
 const C11_RULE: &str = "generated TinyLFU configurations (size, samples, false-positive ratio, key hasher) x operation sequences over increment / increment_hashed_key / increment_keys / increment_hashed_keys / try_reset / clear / estimate* / contains* / lt..eq with raw hashes from a small alphabet plus 0, u64::MAX, 1<<32, 1<<63 and random values; 30% of the cases use a single key (exact equality with the aged-count model); non-trivial = at least one reset happened and at least one counter > 1 was halved; distinct by FNV-64 of the serialised case; run in the std and in the no_std build";
 
 fn check_tinylfu_c11(ctx: &Ctx, out: &mut Outcome) {
-    check_tinylfu(ctx, crate::e7::E7Prop::C11, out, 1500, 40000, C11_RULE);
+    check_tinylfu(ctx, crate::e7::E7Prop::C11, out, 12000, 250000, C11_RULE);
 }
 
 /// C05 / C11 quantify over both feature configurations: run the no_std build of this harness
